@@ -3,4 +3,4 @@
 From Coq Require Import Extraction ExtrOcamlBasic ExtrOcamlZBigInt ExtrOcamlNatBigInt.
 From MPS Require Import Model.Sx Model.Dispatch.
 Extraction Language OCaml.
-Extraction "mpsmodel.ml" run.
+Extraction "mpsmodel.ml" mps_dispatch.
